@@ -910,10 +910,15 @@ class C18(Spec):
     assumptions = ["thread schedules as such are not explored: not applicable to contract-based deductive verification (Kani/Verus-style frameworks have no model of Python threads either); the frame condition is sufficient, not necessary"]
     explanation = "Sufficient frame condition, proved syntactically on the current tree: every mutation site reachable from validation and from the constructors has a receiver that is fresh in its function, an error owned by the iteration, or a field of the validator's own resolver; the resolver's mutable state (scope stack, store, handler copy, both caches) is allocated in its constructor; a validator without explicit resolver constructs its own; no reachable function writes a module global, class attribute or closure variable. The step to 'any interleaving' is the paper non-interference lemma; the bounded interleaving run on the real code is a cross-check."
 
+    def tasks(self, root, tier):
+        # a validator's format checker is part of what it does not share: every FormatChecker instance owns its registry
+        from contracts import tasks_derive
+        return [t for t in tasks_derive.derive_tasks(root, _tmo(tier)) if t.which in ("fc_init", "fc_checks", "validator_init")]
+
     def table_obligations(self, repo, tabs):
         roots = VALIDATION_ROOTS + ["validators:create.Validator.__init__", "validators:RefResolver.__init__", "validators:RefResolver.from_schema",
                                     "validators:RefResolver.resolve", "validators:RefResolver.resolve_from_url", "validators:RefResolver.resolve_remote",
-                                    "validators:RefResolver.resolve_fragment"]
+                                    "validators:RefResolver.resolve_fragment", "_format:FormatChecker.check", "_format:FormatChecker.conforms"]
         allowed = VALIDATION_WRITES + [("validators:RefResolver.__init__", "self.store"), ("validators:RefResolver.__init__", "self.store.[]"),
                                        ("_utils:URIDict.__init__", "self.store"), ("validators:create.Validator.__init__", "self")]
         w, reach = write_frame_obligations(repo, tabs, roots, allowed, "validation+construction")
